@@ -89,7 +89,7 @@ func (c *Ctx) AddCrash(cr run.Crash) {
 		Kind: cr.Kind, Params: cr.Params, CaseID: cr.CaseID, Detail: map[string]any{"reproduced": cr.Repro}})
 }
 
-func (c *Ctx) Count(k string, n int64) { c.counts[k] += n }
+func (c *Ctx) Count(k string, n int64)  { c.counts[k] += n }
 func (c *Ctx) Counts() map[string]int64 { return c.counts }
 func (c *Ctx) AddEvals(n int64)         { c.evals += n }
 func (c *Ctx) AddDistinct(n int)        { c.distinct += n }
